@@ -12,7 +12,7 @@ Faithful on purpose (these are what the emitted code relies on):
   * the operand stack survives jumps; bin_op / if_stmt / while_loop / call clear it; fast_rev2 / store / equ demand exact sizes;
   * array views (`xs[i]`) are pointers until an instruction dereferences them."""
 import z3
-from core import (Fail, Unsupported, OutOfBound, NIL, ListRef, Cell, Fn, Ptr, CellPtr, Obj, BuiltIn, list_builtin, LIST_BUILTINS, is_sym, is_int, is_bool, arith, compare, negate,
+from core import (Fail, Unsupported, OutOfBound, NIL, ListRef, Cell, Fn, Ptr, CellPtr, Obj, BuiltIn, list_builtin, LIST_BUILTINS, MapRef, MapPtr, map_key, map_builtin, MAP_BUILTINS, is_sym, is_int, is_bool, arith, compare, negate,
                   logic_not, logic, equals)
 
 SPECIAL = ("<if>", "<else>", "<while>")
@@ -80,6 +80,8 @@ class Machine:
                 v = v.lst.items[v.idx]
             elif isinstance(v, CellPtr):
                 v = v.cell.v
+            elif isinstance(v, MapPtr):
+                v = v.map.items.get(v.key, NIL)
             else:
                 return v
 
@@ -235,6 +237,28 @@ class Machine:
                     ops.append(Ptr(lst, idx))
                 else:
                     raise Unsupported("vec_op " + arg)
+            elif op == "make_map":
+                ops.append(MapRef({}))
+            elif op == "fast_map_insert":
+                mc = self.find_name_in_function(a[0])
+                kc = self.find_name_in_function(a[1])
+                if mc is None or kc is None:
+                    raise Fail("fast_map_insert", "register not mapped")
+                if not isinstance(mc.v, MapRef):
+                    raise Fail("fast_map_insert", "inserting on a non-map")
+                if not ops:
+                    raise Fail("panic", "no value in the op stack")
+                mc.v.items[map_key(kc.v)] = self.deref(ops.pop())          # GcMap::insert stores the value behind a view
+            elif op == "map_op":
+                if not ops:
+                    raise Fail("map_op", "no index in the stack")
+                key = ops.pop()
+                mc = self.find_name_in_function(a[0])
+                if mc is None:
+                    raise Fail("map_op", "no map at register")
+                if not isinstance(mc.v, MapRef):
+                    raise Fail("map_op", "not a map")
+                ops.append(MapPtr(mc.v, map_key(self.deref(key))))
             elif op == "make_object":
                 # the object's variables are the cells of the constructor function's top frame (shared, not copied)
                 ops.append(Obj(name, dict(self.stack[-1].vars)))
@@ -252,6 +276,10 @@ class Machine:
                     ops.append(BuiltIn(a[0]))
                     ip = nxt
                     continue
+                if isinstance(ob, MapRef) and a[0] in MAP_BUILTINS:
+                    ops.append(BuiltIn(a[0], "map"))
+                    ip = nxt
+                    continue
                 if not isinstance(ob, Obj):
                     raise Unsupported("lookup `%s` on a non-object" % a[0])
                 c = ob.vars.get(a[0])
@@ -265,10 +293,12 @@ class Machine:
                     raise Fail("ptr_mut", "requires [ptr, value]")
                 nv = ops.pop()
                 pt = ops.pop()
-                if isinstance(nv, (Ptr, CellPtr)):
+                if isinstance(nv, (Ptr, CellPtr, MapPtr)):
                     raise Unsupported("ptr_mut storing a pointer")
                 if isinstance(pt, CellPtr):
                     pt.cell.v = nv
+                elif isinstance(pt, MapPtr):
+                    pt.map.items[pt.key] = self.deref(nv)
                 elif isinstance(pt, Ptr):
                     pt.lst.items[pt.idx] = nv
                 else:
@@ -328,6 +358,11 @@ class Machine:
                     elif isinstance(pt, CellPtr):
                         res = arith(o, sym, self.deref(pt.cell.v), v)
                         pt.cell.v = res
+                    elif isinstance(pt, MapPtr):
+                        if pt.key not in pt.map.items:
+                            raise Fail("bin_op_assign", "no such key")
+                        res = arith(o, sym, self.deref(pt.map.items[pt.key]), v)
+                        pt.map.items[pt.key] = res
                     else:
                         raise Fail("bin_op_assign", "not a HeapPrimitive")
                     ops[-1] = res
@@ -475,7 +510,7 @@ class Machine:
                             raise Fail("call", "built-in without a receiver")
                         # the native call runs inside its own frame; a failing built-in leaves that frame on the stack
                         self.stack.append(Frame("<native code>#NonSweepingBuiltInFunction(%s)" % NATIVE_NAMES.get(f.name, f.name)))
-                        rv = list_builtin(o, f.name, bargs[0], bargs[1:])
+                        rv = (map_builtin if f.on == "map" else list_builtin)(o, f.name, bargs[0], bargs[1:])
                         self.stack.pop()
                         if rv is not None:
                             ops.append(rv)
